@@ -381,6 +381,17 @@ fn small_params() -> MachineParams {
 
 impl Prop for C11 {
     type Case = Case;
+    fn admissible(case: &Case) -> bool {
+        match case {
+            Case::RoundTrip { templates, states, .. } => *states <= 70_000 && templates.states.len() <= 2000 && templates.build().is_ok(),
+            Case::Text { s } | Case::V1Text { s } => s.len() <= 100_000,
+            Case::Mutated { base, muts, .. } => base.states.len() <= 64 && base.build().is_ok() && muts.len() <= 32,
+            Case::Mirror { base, mutations } => base.states.len() <= 64 && mutations.len() <= 16,
+            Case::Bomb { mib, .. } => *mib <= 256,
+            Case::V1 { machine, muts, bomb_mib, .. } => machine.states.len() <= 16 && muts.len() <= 32 && *bomb_mib <= 64,
+        }
+    }
+
     const ID: &'static str = "C11";
     const RULE: &'static str = "round-trip cases: generated valid machines of every action/distribution/counter variant with extreme numeric fields, 1 to ~65 000 states, including machines padded to just under / exactly / just over 1 MiB of bincode. Hostile cases: arbitrary (also non-ASCII) text; valid encodings with bit flips, byte edits, insertions, deletions, splices and truncations applied at the string, zlib or bincode layer (outer layers re-encoded), wrong version prefixes; bincode payloads built from a mirror struct with out-of-range contents; zlib bombs (zeros, valid prefix + zeros, 0xff) of 2 MiB..4 GiB; legacy v1 payloads (structured generator + mutations, bombs <= 64 MiB, arbitrary text). Non-trivial: round-trip of a machine with >=2 states and >=1 distribution; hostile input that passed base64 and zlib (reached bincode), or a bomb, or a v1 payload that reached the state parser. Distinct = hash of the case.";
 
